@@ -98,6 +98,8 @@ type Run struct {
 	wgs        map[*value]*wgState
 	onces      map[*value]*onceState
 	atomicVals map[*value]value
+	timerOf    map[*value]*timer
+	sleeps     []int64
 }
 
 var R *Run // the single active run of this process
@@ -385,6 +387,9 @@ func fingerprint(v Violation) string {
 
 // msgClass strips the variable parts (numbers, bracketed operands) of a panic message.
 func msgClass(m string) string {
+	if strings.HasPrefix(m, "assertion ") {
+		return ""
+	}
 	for i, c := range m {
 		if c == '[' || c >= '0' && c <= '9' {
 			return strings.TrimSpace(m[:i])
